@@ -1,9 +1,11 @@
 /- C03 handlers: prime curves. Specification: affine chord-and-tangent arithmetic of Spec/Curve.lean. -/
 import Driver.Util
 import RelicVerif.Spec.Curve
+import RelicVerif.Gen.EpFormulas
 
 namespace Driver.C03
 open Driver Relic.Spec.Curve
+open Relic.Model.Formula
 
 structure Env where
   c : Curve
@@ -32,6 +34,40 @@ def checkParam (e : Env) : List String :=
   (if mul e.c e.g e.n == none then [] else ["n*G != O"]) ++
   (if e.g != none then [] else ["generator is the identity"])
 
+/-- the operand as the C function receives it: the affine point in the requested representation -/
+def parseRep (p : Nat) (s : String) : Option (Pt Nat) :=
+  if s == "inf" then some ⟨0, 0, 0, .basic⟩ else
+  match s.splitOn "," with
+  | [x, y] => do
+    let x ← parseHexNat x
+    let y ← parseHexNat y
+    some ⟨x % p, y % p, 1 % p, .basic⟩
+  | [x, y, z, r] => do
+    let x ← parseHexNat x
+    let y ← parseHexNat y
+    let z ← parseHexNat z
+    if r == "P" then some ⟨x * z % p, y * z % p, z % p, .projc⟩
+    else some ⟨x * (z * z % p) % p, y * (z * z % p * z % p) % p, z % p, .jacob⟩
+  | _ => none
+
+/-- ep_norm of the model's result: the affine point a representation denotes -/
+def normPt (p : Nat) (r : Pt Nat) : Point :=
+  if r.z % p = 0 then none else
+  let zi := Relic.Model.Formula.invEuclid p r.z
+  match r.coord with
+  | .basic => some (r.x % p, r.y % p)
+  | .projc => some (r.x * zi % p, r.y * zi % p)
+  | .jacob => some (r.x * (zi * zi % p) % p, r.y * (zi * zi % p * zi % p) % p)
+
+def optAOf (s : Option String) : OptA :=
+  match s with
+  | some "0" => .zero
+  | some "1" => .one
+  | some "2" => .two
+  | some "3" => .min3
+  | some "4" => .tiny
+  | _ => .huge
+
 def parsePoint (s : String) : Option Point :=
   if s == "inf" then some none else
   match s.splitOn "," with
@@ -54,12 +90,32 @@ def handle (e : Env) (w : Nat) (op : String) (args : List String) (got : String)
     let p ← parsePoint p
     let q0 ← parsePoint q
     let q := if al == "3" || al == "4" then p else q0
+    -- model column: the generated formula code (RelicVerif/Gen/EpFormulas.lean) on the presented representation
+    let cv : CurveC Nat := { a := c.a, b := c.b, optA := optAOf (e.kv.lookup "opta") }
+    let ops := natOps c.p
+    let genAdd : Option (FOps Nat → CurveC Nat → Pt Nat → Pt Nat → Pt Nat) :=
+      if o == "add_basic" then some Relic.Gen.ep_add_basic
+      else if o == "add_projc" || o == "add" then some Relic.Gen.ep_add_projc
+      else if o == "add_jacob" then some Relic.Gen.ep_add_jacob else none
+    match genAdd, parseRep c.p (args.getD 2 ""), parseRep c.p (if al == "3" || al == "4" then args.getD 2 "" else args.getD 3 "") with
+    | some f, some pr, some qr =>
+      some { model := fmtPoint (normPt c.p (f ops cv pr qr)), spec := [fmtPoint (add c p q)], tags := ["gen." ++ o] }
+    | _, _, _ =>
     if o.startsWith "add" then cls (fmtPoint (add c p q))
     else if o == "sub" then cls (fmtPoint (add c p (neg c q)))
     else if o == "cmp" then cls (if p == q then "r=0" else "r=2")
     else none
   | "ep1", [o, _, p] => do
     let p ← parsePoint p
+    let cv : CurveC Nat := { a := c.a, b := c.b, optA := optAOf (e.kv.lookup "opta") }
+    let genDbl : Option (FOps Nat → CurveC Nat → Pt Nat → Pt Nat) :=
+      if o == "dbl_basic" then some Relic.Gen.ep_dbl_basic
+      else if o == "dbl_projc" || o == "dbl" then some Relic.Gen.ep_dbl_projc
+      else if o == "dbl_jacob" then some Relic.Gen.ep_dbl_jacob else none
+    match genDbl, parseRep c.p (args.getD 2 "") with
+    | some f, some pr =>
+      some { model := fmtPoint (normPt c.p (f (natOps c.p) cv pr)), spec := [fmtPoint (dbl c p)], tags := ["gen." ++ o] }
+    | _, _ =>
     if o.startsWith "dbl" then cls (fmtPoint (dbl c p))
     else if o == "neg" then cls (fmtPoint (neg c p))
     else if o == "norm" then cls (fmtPoint p)
